@@ -76,4 +76,22 @@ def structural(find_def):
         )
     out.append(("openapi/initial-components-define-ServerError-and-only-callee-writes", ok,
                 "emit.openapi starts from {requestBodies: {}, schemas: {ServerError: ...}}, calls the verified function once per tuple with (components, paths, *tuple), has no other store, and returns those objects"))
+    # openapi_bulk.parse_route: the route functions handed on are nodes OF the routes module, selected one by one -- the return
+    # value is filter(P, filter(Q, parsed_ast.body)) (each function of the body at most once, in order, never another node in
+    # its place).  Generated route functions of different models share their names (create / read / destroy), so anything
+    # that goes through a name cannot tell them apart.
+    f = find_def("cdd.compound.openapi.gen_openapi", "openapi_bulk.parse_route")
+    ok = None
+    if f is not None:
+        rets = [n for n in ast.walk(f) if isinstance(n, ast.Return)]
+
+        def is_filter_of_body(e):
+            if ast.unparse(e) == "parsed_ast.body":
+                return True
+            return (isinstance(e, ast.Call) and isinstance(e.func, ast.Name) and e.func.id == "filter" and len(e.args) == 2 and not e.keywords
+                    and is_filter_of_body(e.args[1]))
+
+        ok = len(rets) == 1 and rets[0].value is not None and not ast.unparse(rets[0].value) == "parsed_ast.body" and is_filter_of_body(rets[0].value)
+    out.append(("openapi_bulk.parse_route/selects-nodes-of-the-module-body", ok,
+                "parse_route returns filter(..., filter(..., parsed_ast.body)): every route function of the module is kept or dropped on its own"))
     return out
